@@ -1,5 +1,6 @@
 import Hgxv.Model.Wire
 import Hgxv.Model.C03
+import Hgxv.Model.C03Spec
 /-! Line protocol for C03 (see `harness/c03.py`, functions `op_lines` / `q_line`).  The driver only parses a line into a
 `C03.Op`, calls `C03.step`, and prints the outcome in the canonical (sorted) rendering of the harness.
 
@@ -144,9 +145,23 @@ def showRes : Res → String
   | .out .rej => "rej"
   | .ans a => showAns a
 
-def stepLine (st : State) (toks : List String) : State × String :=
+/-- The driver runs the concrete model AND, redundantly, the abstract specification (`C03.specStep`) on the same
+lines; a query that does not expose edge ids must be answered identically by both (this is theorem `C03_refines`,
+re-checked here at run time on every generated line) - otherwise the line is answered `spec-mismatch ...`. -/
+def stepLine (st : State × SpecState) (toks : List String) : (State × SpecState) × String :=
   match parseOp toks with
   | none => (st, "bad-op")
-  | some op => let r := step st op; (r.1, showRes r.2)
+  | some op =>
+    let r := step st.1 op
+    let sst := specStep st.2 op
+    let out := showRes r.2
+    match op with
+    | .query i q =>
+      if q.exposesIds then ((r.1, sst), out) else
+      let a2 := match AL.get? sst i with
+        | none => "rej"
+        | some sp => showAns (Spec.answer sp q)
+      if a2 = out then ((r.1, sst), out) else ((r.1, sst), "spec-mismatch model=" ++ out ++ " spec=" ++ a2)
+    | _ => ((r.1, sst), out)
 
-def main : IO Unit := Wire.run stepLine []
+def main : IO Unit := Wire.run stepLine ([], [])
